@@ -22,7 +22,7 @@ def backedB (s : State) : Bool :=
 def supplyB (s : State) : Bool :=
   (allDenoms s).all fun d => supplyOf s d == bankTotal s d
 
-def nodupKeys {κ α : Type} [DecidableEq κ] (t : Tbl κ α) : Bool := t.keys.eraseDups.length == t.keys.length
+def keysNodupB {κ α : Type} [DecidableEq κ] (t : Tbl κ α) : Bool := t.keys.eraseDups.length == t.keys.length
 
 /-- C18. -/
 def countersB (s : State) : Bool :=
@@ -52,15 +52,15 @@ def partitionsB (s : State) : Bool :=
 
 /-- Two-way agreement between an index table and the set computed from the primary records. -/
 def idxAgrees {κ : Type} [DecidableEq κ] (idx : Tbl κ Unit) (expected : List κ) : Bool :=
-  idx.keys.all (expected.contains ·) && expected.all (idx.has ·) && nodupKeys idx
+  idx.keys.all (expected.contains ·) && expected.all (idx.has ·) && keysNodupB idx
 
 /-- NodeIdx. -/
 def nodeIdxB (s : State) : Bool :=
   idxAgrees s.nodeQ (s.nodeActive.map fun (a, n) => (n.inactiveAt, a)) &&
   idxAgrees s.planForProv ((s.planActive ++ s.planInactive).map fun (i, p) => (p.prov, i)) &&
   s.nodeForPlan.keys.all (fun (i, n) => (getPlan s i).isSome && hasNode s n) &&
-  nodupKeys s.nodeForPlan && nodupKeys s.nodeActive && nodupKeys s.nodeInactive && nodupKeys s.provActive &&
-  nodupKeys s.provInactive && nodupKeys s.planActive && nodupKeys s.planInactive
+  keysNodupB s.nodeForPlan && keysNodupB s.nodeActive && keysNodupB s.nodeInactive && keysNodupB s.provActive &&
+  keysNodupB s.provInactive && keysNodupB s.planActive && keysNodupB s.planInactive
 
 /-- SessIdx (C09, session side). -/
 def sessIdxB (s : State) : Bool :=
@@ -69,7 +69,7 @@ def sessIdxB (s : State) : Bool :=
   idxAgrees s.sessForNode (s.sessions.map fun (i, x) => (x.node, i)) &&
   idxAgrees s.sessForSub (s.sessions.map fun (i, x) => (x.sub, i)) &&
   idxAgrees s.sessForAlloc (s.sessions.map fun (i, x) => (x.sub, x.addr, i)) &&
-  nodupKeys s.sessions
+  keysNodupB s.sessions
 
 def subNode (x : Sub) : Option Addr := match x.kind with | .node n _ _ _ => some n | _ => none
 def subPlan (x : Sub) : Option Nat := match x.kind with | .plan p _ => some p | _ => none
@@ -93,7 +93,7 @@ def subIdxB (s : State) : Bool :=
     match s.subs.get i with | some x => if x.status == .StatusActive then some (p.addr, p.node, i) else none | none => none) &&
   idxAgrees s.payQ (s.payouts.filterMap fun (i, p) =>
     match s.subs.get i with | some x => if x.status == .StatusActive && 0 < p.hours then some (p.nextAt, i) else none | none => none) &&
-  nodupKeys s.subs && nodupKeys s.allocs && nodupKeys s.payouts
+  keysNodupB s.subs && keysNodupB s.allocs && keysNodupB s.payouts
 
 /-- C06: bounds. -/
 def allocBoundsB (s : State) : Bool := s.allocs.all fun (_, al) => 0 ≤ al.used && al.used ≤ al.granted
@@ -157,7 +157,7 @@ def deadlinesFutureB (s : State) : Bool :=
   s.nodeQ.keys.all (fun k => s.time < k.1) && s.subQ.keys.all (fun k => s.time < k.1) && s.sessQ.keys.all (fun k => s.time < k.1)
 
 /-- C14: recorded swaps have distinct hashes (`Tbl` keys) and positive amounts in one denomination each. -/
-def swapsB (s : State) : Bool := nodupKeys s.swaps && s.swaps.all (fun (h, w) => w.hash == h && 0 ≤ w.amt.amount)
+def swapsB (s : State) : Bool := keysNodupB s.swaps && s.swaps.all (fun (h, w) => w.hash == h && 0 ≤ w.amt.amount)
 
 /-- The state monitors, by name. -/
 def stateMonitors (s : State) : List (String × Bool) := [
